@@ -36,6 +36,10 @@ var nvPresets = [][]int{
 	{0, 2, 8, 0, 0, 0}, // several proofs among the votes, proposal = block of the lowest one
 	{3, 0, 8, 0, 0, 0},
 	{0, 1, 8, 0, 0, 0},
+	{0, 1, 9, 5, 0, 0}, // the proven hash in the signed proposal, another block object attached
+	{3, 0, 9, 5, 0, 0},
+	{4, 0, 0, 0, 0, 0}, // votes of the previous height
+	{4, 1, 9, 0, 0, 0},
 	{0, 6, 2, 0, 0, 0}, // own vote: certificate for another (consumer-invalid) block under PREPARE signatures lifted from the block really prepared
 	{0, 6, 0, 0, 1, 1},
 	{0, 6, 2, 0, 1, 1},
@@ -114,7 +118,7 @@ func drawByz(t *rapid.T, w *sim.World, o simOpts) *sim.ByzSpec {
 		p[1] = rapid.IntRange(0, 6).Draw(t, "mode1")
 		if strat == "nv" {
 			p[2] = rapid.SampledFrom([]int{0, 0, 1, 2, 3, 4, 5, 8, 9, 9, 9}).Draw(t, "proposal")
-			p[3] = rapid.SampledFrom([]int{0, 0, 0, 0, 1, 2, 3, 4}).Draw(t, "ppmode")
+			p[3] = rapid.SampledFrom([]int{0, 0, 0, 0, 1, 2, 3, 4, 5}).Draw(t, "ppmode")
 			p[4] = rapid.SampledFrom([]int{0, 0, 0, 1}).Draw(t, "dropproofs")
 		}
 	}
@@ -247,7 +251,7 @@ func TestC07S(t *testing.T) {
 }
 
 func TestC08S(t *testing.T) {
-	o := simOpts{Focus: "C08", MaxN: 7, MaxHeight: 2, MaxSteps: 150, ByzBias: 95,
+	o := simOpts{Focus: "C08", MaxN: 7, MaxHeight: 3, MaxSteps: 150, ByzBias: 95,
 		Strategies: []string{"prepare", "commit", "vc", "pp", "replay", "replay", "nv", "support"}}
 	simProperty(t, o, func(w *sim.World) bool { return w.Obs.ByzStored > 0 })
 }
